@@ -214,8 +214,13 @@ pub fn run_cli(cwd: &Path, spec: &str, dest: &str, cfg: &Cfg, secs: u64) -> CliR
 /// the same with extra environment variables (the crash hook's plan)
 pub fn run_cli_env(cwd: &Path, spec: &str, dest: &str, cfg: &Cfg, secs: u64, env: &[(&str, String)]) -> CliRun {
     let exe = std::env::current_exe().unwrap();
-    let mut cmd = std::process::Command::new(exe);
-    for (k, v) in env { cmd.env(k, v); }
+    // `LNV_ULIMIT_F=<blocks>`: the child runs under a file-size limit, so that it is killed by the operating system
+    // in the middle of whatever way of writing files the code under test uses (a real fault, not the hook's simulation)
+    let mut cmd = match env.iter().find(|(k, _)| *k == "LNV_ULIMIT_F") {
+        Some((_, n)) => { let mut c = std::process::Command::new("sh"); c.arg("-c").arg(format!("ulimit -f {n}; exec \"$0\" \"$@\"")).arg(&exe); c }
+        None => std::process::Command::new(&exe),
+    };
+    for (k, v) in env { if *k != "LNV_ULIMIT_F" { cmd.env(k, v); } }
     if cfg.examples {
         // the command line as the `libninja gen` binary receives it (`--examples` is a set-true flag whose default is true)
         cmd.arg("child-cli").arg("--output-dir").arg(dest);
